@@ -170,7 +170,8 @@ fn c13_case(ctx: &mut Ctx, rng: &mut Rng, i: u64) {
             take: if j == early_at { rng.range(1, 5000) } else { 0 },
         })
         .collect();
-    let execs: Vec<Exec> = stages.iter().enumerate().map(|(j, s)| stage_exec(ctx, j, s, &dir)).collect();
+    // a copy of a command stands for the command
+    let execs: Vec<Exec> = stages.iter().enumerate().map(|(j, s)| stage_exec(ctx, j, s, &dir)).map(|e| if rng.chance(150) { e.clone() } else { e }).collect();
     let size = if early { rng.range(300_000, 900_000) } else { match rng.below(8) { 0 => 0, 1 => rng.range(100_000, if ctx.quick() { 1_000_000 } else { 4_000_000 }), 2 => 65536, _ => rng.range(1, 70_000) } } as usize;
     let data = pat_vec(rng.next(), 5, 0, size);
     // terminator and stream kinds
@@ -242,6 +243,15 @@ fn c13_case(ctx: &mut Ctx, rng: &mut Rng, i: u64) {
     }
     if let Some(f) = pre_err.take() {
         pl = f(pl);
+    }
+    // ... and a copy of a configured pipeline is that pipeline: commands, both ends and the shared stderr sink
+    let mut shape = shape;
+    if rng.chance(300) {
+        let copy = pl.clone();
+        drop(pl);
+        pl = copy;
+        shape.push_str("+clone");
+        ctx.count("pipelines_run_from_a_clone", 1);
     }
     let dbg = format!("{:?}", pl);
     let mut got_out: Option<Vec<u8>> = None;
@@ -422,7 +432,7 @@ const TERMS: [&str; 6] = ["popen", "join", "capture", "communicate", "stream_std
 const STDINS: [&str; 4] = ["inherit", "pipe", "data", "file"];
 const EARLIER: [&str; 4] = ["cat-like", "ignores-stdin-and-sleeps", "writes-a-lot", "writes-a-lot-to-stderr"];
 
-fn c14_case(ctx: &mut Ctx, n: usize, kfail: usize, stdin_kind: &str, term: &str, earlier: &str, detached: bool) {
+fn c14_case(ctx: &mut Ctx, n: usize, kfail: usize, stdin_kind: &str, term: &str, earlier: &str, detached: bool, via_clone: bool) {
     // which combinations exist
     let ok = match (term, stdin_kind) {
         ("popen", "data") | ("join", "data") | ("stream_stdout", "data") | ("stream_stdin", "data") => false, // input data is refused by these terminators (C16)
@@ -441,8 +451,14 @@ fn c14_case(ctx: &mut Ctx, n: usize, kfail: usize, stdin_kind: &str, term: &str,
         let mut e = if j == kfail {
             // why it cannot be started varies: nothing there (ENOENT), no execute permission or a directory (EACCES)
             use std::os::unix::fs::PermissionsExt;
-            match (n + kfail + stdin_kind.len() + term.len()) % 3 {
+            match (n + kfail + stdin_kind.len() + term.len() + earlier.len()) % 4 {
                 0 => Exec::cmd(dir.join("no-such-program")),
+                3 => {
+                    // the program is fine but a step between fork and exec is refused: no such user id
+                    use subprocess::ExecExt;
+                    want_errno = libc::EINVAL;
+                    Exec::cmd(&ctx.vchild).args(&["exit", "0"]).setuid(u32::MAX)
+                }
                 1 => {
                     std::fs::write(dir.join("not-executable"), b"#!/bin/true\n").unwrap();
                     std::fs::set_permissions(dir.join("not-executable"), std::fs::Permissions::from_mode(0o644)).unwrap();
@@ -458,7 +474,8 @@ fn c14_case(ctx: &mut Ctx, n: usize, kfail: usize, stdin_kind: &str, term: &str,
         } else {
             match earlier {
                 "cat-like" => stage_exec(ctx, j, &Stage { a: 1, b: 0, nerr: 0, linger: 0, code: 0, take: 0 }, &dir),
-                "ignores-stdin-and-sleeps" => Exec::cmd(&ctx.vchild).args(&["io", "1", "s30,x0"]).arg(dir.join(format!("io{}.rep", j))),
+                // detached: it outlives the attempt by far, so whoever waits for it is seen to have waited
+                "ignores-stdin-and-sleeps" => Exec::cmd(&ctx.vchild).args(&["io", "1", if detached { "s3000,x0" } else { "s30,x0" }]).arg(dir.join(format!("io{}.rep", j))),
                 "writes-a-lot" => Exec::cmd(&ctx.vchild).args(&["io", "1", "w1:400000:4096,x0"]).arg(dir.join(format!("io{}.rep", j))),
                 // more than a pipe holds on stderr: with capture/communicate the pipeline's stderr is a pipe the parent must serve or close
                 _ => Exec::cmd(&ctx.vchild).args(&["io", "1", "w2:300000:4096,x0"]).arg(dir.join(format!("io{}.rep", j))),
@@ -466,6 +483,10 @@ fn c14_case(ctx: &mut Ctx, n: usize, kfail: usize, stdin_kind: &str, term: &str,
         };
         if detached {
             e = e.detached();
+        }
+        // a copy of a command is the same command (detached included)
+        if via_clone {
+            e = e.clone();
         }
         execs.push(e);
     }
@@ -485,6 +506,9 @@ fn c14_case(ctx: &mut Ctx, n: usize, kfail: usize, stdin_kind: &str, term: &str,
     if matches!(term, "join" | "stream_stdin" | "popen") {
         pl = pl.stdout(NullFile);
     }
+    if via_clone {
+        pl = pl.clone();
+    }
     let m = run::monitored(|| -> Result<String, PopenError> {
         match term {
             "popen" => pl.popen().map(|v| format!("{} commands started", v.len())),
@@ -497,7 +521,9 @@ fn c14_case(ctx: &mut Ctx, n: usize, kfail: usize, stdin_kind: &str, term: &str,
     });
     let evs = m.events();
     let forks = spawn::forked_pids(&evs);
-    let tag = format!("n{}/k{}/{}/{}/{}{}", n, kfail, stdin_kind, term, earlier, if detached { "/detached" } else { "" });
+    // state of the started commands at the moment the call returned
+    let at_return: Vec<(i32, Option<char>)> = forks.iter().map(|&p| (p, crate::inspect::proc_state(p))).collect();
+    let tag = format!("n{}/k{}/{}/{}/{}{}{}", n, kfail, stdin_kind, term, earlier, if detached { "/detached" } else { "" }, if via_clone { "/clone" } else { "" });
     ctx.count("tuples_run", 1);
     ctx.distinct(&tag);
     let w = |extra: J| J::obj().set("case", J::s(&tag)).set("result", J::s(&format!("{:?}", m.result.as_ref().map(|r| r.as_ref().map_err(|e| e.to_string()))))).set("events_tail", J::arr_s(&ilog::fmt_tail(&evs.iter().filter(|e| e.kind != k::READ && e.kind != k::WRITE && e.kind != k::FCNTL).cloned().collect::<Vec<_>>(), 30))).set("detail", extra);
@@ -514,6 +540,9 @@ fn c14_case(ctx: &mut Ctx, n: usize, kfail: usize, stdin_kind: &str, term: &str,
         ctx.violation(&format!("C14/panic/{}", term), "terminator panicked", w(J::s(p)));
         run::end_case();
         return;
+    }
+    if ilog::child_escapes() > 0 {
+        ctx.violation(&format!("C14/forked-child-ran-on-in-the-callers-code/{}", term), "the child forked for the command that cannot be started returned into the caller's code instead of reporting the error and exiting", w(J::Null));
     }
     match &m.result {
         Some(Ok(r)) => {
@@ -538,6 +567,15 @@ fn c14_case(ctx: &mut Ctx, n: usize, kfail: usize, stdin_kind: &str, term: &str,
         ctx.violation(&format!("C14/fd-leak/{}", term), "descriptors of the failed attempt remain open in the parent", w(J::arr_s(&leaks)));
     }
     ctx.count("child_audits", 1);
+    if detached && earlier == "ignores-stdin-and-sleeps" && kfail > 0 && m.result.is_some() {
+        // "returns promptly", "unless detached have been waited for": a detached command that sleeps for seconds is
+        // still running when the call returns - it is gone only if somebody waited for it
+        ctx.count("detached_long_runners_checked_at_return", 1);
+        let gone: Vec<String> = at_return.iter().take(kfail).filter(|(_, st)| !matches!(st, Some('S') | Some('R') | Some('D'))).map(|(p, st)| format!("pid {} state {:?}", p, st)).collect();
+        if !gone.is_empty() {
+            ctx.violation(&format!("C14/detached-command-waited-for/{}{}", term, if via_clone { "/clone" } else { "" }), "the call returned only after a detached, long-running command of the failed attempt had finished: it waited for a command it must not wait for", w(J::arr_s(&gone)));
+        }
+    }
     if detached {
         // commands that did start are detached, but the forked child of the command that failed to start is nobody's to wait for but the library's
         if let Some(&failed) = forks.get(kfail) {
@@ -627,8 +665,12 @@ pub fn run_c14(ctx: &mut Ctx) {
             for s in STDINS {
                 for t in TERMS {
                     for (ei, e) in EARLIER.iter().enumerate() {
-                        for det in [false, true] {
-                            tuples.push((n, kf, s, t, *e, det));
+                        for (det, cl) in [(false, false), (true, false), (true, true), (false, true)] {
+                            // the clone route is enumerated for the detached variant; for the attached one it is sampled
+                            if !det && cl && (n + kf + ei) % 3 != 0 {
+                                continue;
+                            }
+                            tuples.push((n, kf, s, t, *e, det, cl));
                         }
                     }
                 }
@@ -639,16 +681,16 @@ pub fn run_c14(ctx: &mut Ctx) {
     let total = tuples.len() as u64;
     let t2 = tuples.clone();
     ctx.family("enumerated", total, move |ctx, _rng, i| {
-        let (n, kf, s, t, e, det) = t2[i as usize];
+        let (n, kf, s, t, e, det, cl) = t2[i as usize];
         if i < 2 {
-            ctx.sample(J::s(&format!("n={} k={} stdin={} terminator={} earlier={} detached={}", n, kf, s, t, e, det)));
+            ctx.sample(J::s(&format!("n={} k={} stdin={} terminator={} earlier={} detached={} via_clone={}", n, kf, s, t, e, det, cl)));
         }
-        c14_case(ctx, n, kf, s, t, e, det);
+        c14_case(ctx, n, kf, s, t, e, det, cl);
     });
     let nr = ctx.n(0, 8000);
     ctx.family("longer", nr, |ctx, rng, _i| {
         let n = rng.range(5, 6) as usize;
         let kf = rng.below(n as u64) as usize;
-        c14_case(ctx, n, kf, *rng.pick(&STDINS), *rng.pick(&TERMS), *rng.pick(&EARLIER), rng.chance(300));
+        c14_case(ctx, n, kf, *rng.pick(&STDINS), *rng.pick(&TERMS), *rng.pick(&EARLIER), rng.chance(300), rng.chance(300));
     });
 }
